@@ -59,6 +59,12 @@ CHECKS = {
  "C17": ("exploration", "runtime monitor: NewSigner/NewVerifier outcomes, error identities and reported algorithms against a reference decision table; 4-way Sign/SignDigest x Verify/VerifyDigest equivalence and cross-hash refusal with shared signers under 16 concurrent workers",
          "The complete matrix of 31 algorithm ids x 40 key kinds (RSA 1024/2047/2048/3072/4096, four curves, invalid points, Ed25519, foreign crypto.Signer types, wrong Go types) is enumerated for both constructors; for every RSA/ECDSA algorithm x key, signatures from both signing entry points must verify through both verification entry points and the stdlib, and under no other hash.",
          "trusted: reference decision table written from the property text; stdlib verification", "DESIGN.md section 4 C17"),
+ "C18": ("exploration", "Go race detector (child binary built with -race, GORACE halt_on_error=0, reports de-duplicated by top frames) over a 32-goroutine stress workload on shared objects + comparison of every concurrent result with the sequential one + deep-hash snapshot monitor around every read-path call",
+         "Sequential half: for about 250 shared objects of every kind/algorithm (constructed with three alg spellings, and decoded) the deep hash of message, headers, buffers, external data and verifier must be identical before and after every read-path operation. Concurrent half: the same objects are hammered by 32 goroutines released by a barrier (about 50k operations, about 39k measured as overlapping on the same object) and shared signers sign distinct messages; no race report, no runtime abort, no result different from sequential execution.",
+         "trusted: Go race detector and runtime; only interleavings the stress run produced were observed (happens-before analysis makes the race verdict timing-independent for code both goroutines executed)", "DESIGN.md section 4 C18"),
+ "C19": ("exploration", "runtime monitor: deep-hash comparison of destination values across decode histories (used vs fresh destination, before vs after a failing decode) and after overwriting input and output buffers",
+         "For the 7 message/signature/countersignature/header-bucket decoders, 3000 histories each of 2-6 decodes into one variable mix valid inputs of different shapes with inputs failing at every stage; a failing decode must leave the destination bit-identical, a successful one must equal a fresh decode, and scribbling 0xFF over the exact-capacity input buffer or over returned encodings must change neither the value, its re-encoding nor its Verify verdict.",
+         "trusted: reflect-based deep hash (exported and unexported fields, capacity tails)", "DESIGN.md section 4 C19"),
 }
 REASON_NOT_BUILT = "check not built yet in this round; no claim is made (see DESIGN.md build order)"
 
